@@ -1,6 +1,7 @@
 package props
 
 import (
+	"bytes"
 	"encoding/hex"
 	"fmt"
 	"math/big"
@@ -960,6 +961,58 @@ func runRows(e *core.Env, prop string) error {
 			e.Add(core.Case{Impl: kept, Spec: "kept", Key: fmt.Sprintf("c12-indexed-kept %d", vi), Nontrivial: true, Tags: []string{"indexed-address-filter"}})
 			e.Add(core.Case{Impl: verdict, Spec: "ok", Key: fmt.Sprintf("c12-indexed-topics %d", vi), Nontrivial: true, Tags: []string{"indexed-address-filter", "topics-pushdown-oracle"},
 				Detail: map[string]any{"event": ev, "agg": agg, "restriction": restr}})
+		}
+	}
+	if prop == "C12" {
+		// the operator x argument-list grid on a byte-string value (deterministic: every run has every cell):
+		// one / several arguments, the value among them first, last or not at all; the reference verdict is
+		// computed here (eq: some argument equals; ne: none equals; contains: some argument occurs in the value;
+		// !contains: none does)
+		v, o1, o2 := r.Bytes(20), r.Bytes(20), r.Bytes(20)
+		hx := func(b []byte) string { return "0x" + hex.EncodeToString(b) }
+		argLists := map[string][]string{"v": {hx(v)}, "o": {hx(o1)}, "v,o": {hx(v), hx(o1)}, "o,v": {hx(o1), hx(v)}, "o,o": {hx(o1), hx(o2)}, "o,o,v": {hx(o1), hx(o2), hx(v)},
+			"frag": {hx(v[3:9])}, "o,frag": {hx(o1), hx(v[5:20])}}
+		names := []string{"v", "o", "v,o", "o,v", "o,o", "o,o,v", "frag", "o,frag"}
+		for _, op := range []string{"eq", "ne", "contains", "!contains"} {
+			for _, an := range names {
+				args := argLists[an]
+				eqAny, inAny := false, false
+				for _, a := range args {
+					ab, _ := hex.DecodeString(a[2:])
+					eqAny = eqAny || bytes.Equal(ab, v)
+					inAny = inAny || bytes.Contains(v, ab)
+				}
+				want := map[string]bool{"eq": eqAny, "ne": !eqAny, "contains": inAny, "!contains": !inAny}[op]
+				to := dig.Input{Name: "to", Type: "address", Indexed: true, Column: "t", Filter: dig.Filter{Op: op, Arg: args}}
+				ev := dig.Event{Name: "Transfer", Type: "event", Inputs: []dig.Input{{Name: "from", Type: "address", Indexed: true}, to, {Name: "value", Type: "uint256", Column: "v"}}}
+				ig, _, err := buildIG("igg", "tg", nil, &ev, []wpg.Column{{Name: "t", Type: "bytea"}, {Name: "v", Type: "numeric"}}, "and", nil)
+				if err != nil {
+					e.Add(core.Case{Impl: "config-rejected: " + err.Error(), Spec: "accepted", Key: "c12-grid-cfg " + op + " " + an, Tags: []string{"config-rejected"}})
+					continue
+				}
+				lg := eth.Log{Idx: 1, Address: r.Bytes(20), Data: append(make([]byte, 31), 9)}
+				for _, t := range [][]byte{ev.SignatureHash(), append(make([]byte, 12), o2...), append(make([]byte, 12), v...)} {
+					lg.Topics = append(lg.Topics, t)
+				}
+				blk, _ := makeItem(r)
+				blk.Txs[0].Logs = eth.Logs{lg}
+				fc := &fakeConn{}
+				var mu sync.Mutex
+				got := core.Protect(func() string {
+					if _, err := ig.Insert(e2eCtx("src1", 7), &mu, fc, []eth.Block{blk}); err != nil {
+						return "err"
+					}
+					if len(fc.copies) == 1 && len(fc.copies[0].Rows) == 1 {
+						return "kept"
+					}
+					return "dropped"
+				})
+				spec := "dropped"
+				if want {
+					spec = "kept"
+				}
+				e.Add(core.Case{Impl: got, Spec: spec, Key: "c12-grid " + op + " " + an, Nontrivial: true, Tags: []string{"operator-argument-grid", "op=" + op}})
+			}
 		}
 	}
 	{
